@@ -324,6 +324,18 @@ func runDHCP(alpha []dEvent, hist []int, o dhcpOpts) *dhcpResult {
 			var reqXID uint32
 			var reqK = -1
 			var huntIP netip.Addr // StartHunt: the leased address whose RELEASE is faked
+			// which MAC the session tracks each address for, before the message is processed (an ACK re-binds the address)
+			preTracked := map[netip.Addr]string{}
+			for _, hst := range s.GetHosts() {
+				preTracked[hst.Addr.IP] = string(hst.MACEntry.MAC)
+			}
+			preAcks := map[int]netip.Addr{}
+			for k, a := range obs.acks {
+				preAcks[k] = a.ip
+			}
+			for k, a := range obs.lease {
+				preAcks[k] = a.ip
+			}
 			curK = ev.K
 			func() {
 				defer func() {
@@ -635,6 +647,11 @@ func runDHCP(alpha []dEvent, hist []int, o dhcpOpts) *dhcpResult {
 				if th := s.FindIP(a); th != nil && !bytes.Equal(th.MACEntry.MAC, dClients[k]) && mt == 2 {
 					fail("unique", "tracked-by-other-mac", fmt.Sprintf("OFFER of %v to c%d while the session tracks it for %s", a, k+1, th.MACEntry.MAC))
 				}
+				// (confirming the lease a client already holds is not handing an address out: the clause is read for first
+				// acknowledgements, like the offer clause)
+				if m, ok := preTracked[a]; ok && m != string(dClients[k]) && mt == 5 && preAcks[k] != a {
+					fail("unique", "ack-tracked-by-other-mac", fmt.Sprintf("ACK of %v to c%d while the session tracks it for %x", a, k+1, m))
+				}
 				// ---- C12: segregation and transaction conformance
 				wantRouter, wantDNS, wantMask := dRouter, dDNS, []byte{255, 255, 255, 248}
 				if captured {
@@ -799,6 +816,7 @@ func dhcpSeeds(alpha []dEvent) [][]int {
 		{find("capture", 0, ""), d1, r1, tick2h, tickMin},               // a captured client bound in the netfilter subnet whose session entry was purged
 		{find("capture", 0, ""), d1, find("discover", 1, "other"), r1},  // a captured client acknowledged the address that is also on offer to a client of the home subnet
 		{find("discover", 3, "none"), find("discover", 0, "other"), r1}, // the address on offer to c4 was acknowledged to c1 (same hardware address)
+		{find("discover", 0, "free"), r1},                               // c1 bound to the address that a station with a static configuration uses later ("seen")
 	}
 }
 
